@@ -7,6 +7,7 @@
 //! with values TLC produced.
 #[cfg(feature = "capsule")]
 mod capsule;
+mod codecs;
 mod core;
 mod disk;
 mod func;
